@@ -61,27 +61,69 @@ func clip(s string) string {
 	return s
 }
 
+// source: where an automaton of a case comes from — a word set (dawg.New) or a stream written
+// by another producer (GobDecode into a fresh Dawg), see foreign.go.
+type source struct {
+	words  [][]byte
+	stream []byte // non-nil: a foreign stream
+}
+
 type tcase struct {
 	blank  byte
 	pats   [][]byte
-	tokens [][]byte
+	tokens [][]byte // the word set of a plain case (old syntax: one source, no program)
+	// history cases (history.go): n sources, a program over them
+	n    int
+	srcs []source
+	prog []string
+	each bool // validate everything after each step (otherwise only at the end)
 }
+
+// plain: one source, no program (the shape of every case before the history cases existed)
+func (c tcase) plain() bool { return len(c.prog) == 0 && c.n <= 1 }
 
 func (c tcase) line() string {
 	ps := make([]string, len(c.pats))
 	for i, p := range c.pats {
 		ps[i] = hexWord(p)
 	}
-	tk := make([]string, len(c.tokens))
-	for i, w := range c.tokens {
-		tk[i] = hexWord(w)
+	head := fmt.Sprintf("b=%02x,s=%s", c.blank, strings.Join(ps, "."))
+	if c.n == 0 && len(c.srcs) == 0 {
+		tk := make([]string, len(c.tokens))
+		for i, w := range c.tokens {
+			tk[i] = hexWord(w)
+		}
+		return head + ";" + strings.Join(tk, " ")
 	}
-	return fmt.Sprintf("b=%02x,s=%s;%s", c.blank, strings.Join(ps, "."), strings.Join(tk, " "))
+	var xs, tk []string
+	for i, sc := range c.srcs {
+		if sc.stream != nil {
+			xs = append(xs, fmt.Sprintf("%d:%s", i, hex.EncodeToString(sc.stream)))
+			continue
+		}
+		for _, w := range sc.words {
+			tk = append(tk, fmt.Sprintf("%d:%s", i, hexWord(w)))
+		}
+	}
+	head += fmt.Sprintf(",n=%d", len(c.srcs))
+	if len(xs) > 0 {
+		head += ",x=" + strings.Join(xs, "/")
+	}
+	if len(c.prog) > 0 {
+		head += ",p=" + strings.Join(c.prog, ".")
+		if c.each {
+			head += ",v=e"
+		} else {
+			head += ",v=f"
+		}
+	}
+	return head + ";" + strings.Join(tk, " ")
 }
 
 func parse(line string) tcase {
 	c := tcase{blank: '?'}
 	parts := strings.SplitN(line, ";", 2)
+	streams := map[int][]byte{}
 	for _, kv := range strings.Split(parts[0], ",") {
 		i := strings.IndexByte(kv, '=')
 		if i < 0 {
@@ -98,13 +140,48 @@ func parse(line string) tcase {
 					c.pats = append(c.pats, unhex(p))
 				}
 			}
+		case "n":
+			c.n, _ = strconv.Atoi(v)
+		case "x":
+			for _, e := range strings.Split(v, "/") {
+				if j := strings.IndexByte(e, ':'); j > 0 {
+					si, _ := strconv.Atoi(e[:j])
+					streams[si] = unhex(e[j+1:])
+				}
+			}
+		case "p":
+			for _, op := range strings.Split(v, ".") {
+				if op != "" {
+					c.prog = append(c.prog, op)
+				}
+			}
+		case "v":
+			c.each = v == "e"
+		}
+	}
+	if c.n < 1 {
+		c.n = 1
+	}
+	c.srcs = make([]source, c.n)
+	for i, b := range streams {
+		if i >= 0 && i < c.n {
+			c.srcs[i].stream = b
 		}
 	}
 	if len(parts) > 1 {
 		for _, t := range strings.Fields(parts[1]) {
-			c.tokens = append(c.tokens, unhex(t))
+			si := 0
+			if j := strings.IndexByte(t, ':'); j > 0 {
+				si, _ = strconv.Atoi(t[:j])
+				t = t[j+1:]
+			}
+			if si < 0 || si >= c.n || c.srcs[si].stream != nil {
+				continue
+			}
+			c.srcs[si].words = append(c.srcs[si].words, unhex(t))
 		}
 	}
+	c.tokens = c.srcs[0].words
 	return c
 }
 
@@ -189,12 +266,67 @@ func observe(d *dawg.Dawg, blank byte, pats [][]byte) string {
 		d.NumberOfWords(), d.VerifNodeCount(), clip(strings.Join(sr, ";")))
 }
 
+// makeSource builds the automaton of a source: dawg.New of the word set, or GobDecode of the
+// foreign stream into a fresh Dawg.  what = "build-error" / "src-decode-error" on failure.
+func makeSource(sc source) (d *dawg.Dawg, what string) {
+	if sc.stream != nil {
+		d = new(dawg.Dawg)
+		if err := d.GobDecode(append([]byte{}, sc.stream...)); err != nil {
+			return nil, "src-decode-error"
+		}
+		return d, ""
+	}
+	d, err := dawg.New(sc.words)
+	if err != nil || d == nil {
+		return nil, "build-error"
+	}
+	return d, ""
+}
+
+// roundTrip is the observation of one source: the automaton decoded from the encoding b of
+// the source automaton, by what the property determines, and whether encoding it again gives b.
+// For a foreign source canon= says whether b is the stream the automaton was read from.
+func roundTrip(c tcase, sc source, wf string, b []byte) (proj, strict string, viol []hx.OracleViolation) {
+	strict = "bytes=" + clip(hex.EncodeToString(b))
+	d2 := new(dawg.Dawg)
+	if err := d2.GobDecode(append([]byte{}, b...)); err != nil {
+		return "decode-error", strict, []hx.OracleViolation{hx.Fail("C14:decode-error", "GobDecode rejects the output of GobEncode: %v", err)}
+	}
+	dec := observe(d2, c.blank, c.pats)
+	reenc := "same"
+	b2, err := d2.GobEncode()
+	if err != nil {
+		reenc = "error"
+	} else if !bytes.Equal(b2, b) {
+		reenc = "DIFFERENT"
+	}
+	if reenc != "same" {
+		viol = append(viol, hx.Fail("C14:reencode-differs", "encoding the decoded automaton: %s", reenc))
+	}
+	proj = "wf=" + wf + " " + dec + " reenc=" + reenc
+	if sc.stream != nil {
+		if bytes.Equal(b, sc.stream) {
+			proj += " canon=same"
+		} else {
+			proj += " canon=DIFFERENT"
+		}
+	}
+	return proj, "dump=" + clip(dumpString(d2)) + " " + strict, viol
+}
+
 func Exec(line string) hx.Result {
 	c := parse(line)
+	if !c.plain() {
+		return execHistory(c)
+	}
+	sc := c.srcs[0]
 	var viol []hx.OracleViolation
-	d, err := dawg.New(c.tokens)
-	if err != nil || d == nil {
-		return hx.Result{Obs: "build-error"}
+	d, what := makeSource(sc)
+	if d == nil {
+		if sc.stream != nil {
+			viol = append(viol, hx.Fail("C14:foreign-decode-error", "GobDecode rejects a stream in the shape GobEncode writes (another id numbering)"))
+		}
+		return hx.Result{Obs: what, Viol: viol}
 	}
 	orig := observe(d, c.blank, c.pats)
 	origDump := dumpString(d)
@@ -208,24 +340,15 @@ func Exec(line string) hx.Result {
 	if dumpString(d) != origDump {
 		viol = append(viol, hx.Fail("C14:encode-modifies", "GobEncode changed the automaton"))
 	}
-	strict := " ## bytes=" + clip(hex.EncodeToString(b))
-	d2 := new(dawg.Dawg)
-	if err := d2.GobDecode(append([]byte{}, b...)); err != nil {
-		return hx.Result{Obs: "decode-error" + strict, Viol: append(viol, hx.Fail("C14:decode-error", "GobDecode rejects the output of GobEncode: %v", err))}
+	bHeld := b                 // the slice GobEncode returned, kept until the end of the case
+	b = append([]byte{}, b...) // our own copy: the calls below must not be able to touch it
+	proj, strict, v := roundTrip(c, sc, wfString(d), b)
+	viol = append(viol, v...)
+	if proj == "decode-error" {
+		return hx.Result{Obs: proj + " ## " + strict, Viol: viol}
 	}
-	dec := observe(d2, c.blank, c.pats)
-	if dec != orig {
+	if dec := observe(mustDecode(b), c.blank, c.pats); dec != orig {
 		viol = append(viol, hx.Fail("C14:roundtrip-differs", "decoded automaton differs from the original: original %s decoded %s", short(orig, 300), short(dec, 300)))
-	}
-	reenc := "same"
-	b2, err := d2.GobEncode()
-	if err != nil {
-		reenc = "error"
-	} else if !bytes.Equal(b2, b) {
-		reenc = "DIFFERENT"
-	}
-	if reenc != "same" {
-		viol = append(viol, hx.Fail("C14:reencode-differs", "encoding the decoded automaton: %s", reenc))
 	}
 	// through encoding/gob
 	var buf bytes.Buffer
@@ -260,26 +383,45 @@ func Exec(line string) hx.Result {
 			viol = append(viol, hx.Fail("C14:used-receiver-reencode-differs", "encoding the automaton decoded into a used receiver gives different bytes"))
 		}
 	}
-	obs := "wf=" + wfString(d) + " " + dec + " reenc=" + reenc + " ## dump=" + clip(dumpString(d2)) + " bytes=" + clip(hex.EncodeToString(b))
+	// the same with a receiver that has itself been encoded before (and whose encoding is still
+	// held): its old encoding must not come back, and must not have been touched either
+	if d5, err5 := dawg.New([][]byte{[]byte("b"), []byte("ba"), {0xfe}}); err5 == nil {
+		b5, err := d5.GobEncode()
+		b5copy := append([]byte{}, b5...)
+		if err != nil {
+			viol = append(viol, hx.Fail("C14:encode-error", "GobEncode: %v", err))
+		} else if err := d5.GobDecode(append([]byte{}, b...)); err != nil {
+			viol = append(viol, hx.Fail("C14:decode-error-used-receiver", "GobDecode into a receiver that was encoded before: %v", err))
+		} else if o5 := observe(d5, c.blank, c.pats); o5 != orig {
+			viol = append(viol, hx.Fail("C14:used-receiver-differs", "decoding into a receiver that was encoded before: original %s decoded %s", short(orig, 300), short(o5, 300)))
+		} else if b6, err := d5.GobEncode(); err != nil || !bytes.Equal(b6, b) {
+			viol = append(viol, hx.Fail("C14:encoded-receiver-reencode-differs", "GobEncode, GobDecode of another automaton into the same Dawg, GobEncode: the second encoding is not that of the new contents"))
+		} else if !bytes.Equal(b5, b5copy) {
+			viol = append(viol, hx.Fail("C14:encoding-overwritten", "a []byte returned by GobEncode changed during later calls"))
+		}
+	}
+	// the first result of GobEncode, held all along, is still the encoding of d
+	if !bytes.Equal(bHeld, b) {
+		viol = append(viol, hx.Fail("C14:encoding-overwritten", "the []byte returned by GobEncode changed during later GobEncode/GobDecode calls on other automata"))
+	}
+	obs := proj + " ## " + strict
 
 	// statistics
-	// number of distinct prefixes of the (sorted) words: 1 + sum of len(w) - lcp(w, previous word)
-	npre := 1
-	properPrefix := false
-	for i, w := range c.tokens {
-		l := 0
-		if i > 0 {
-			p := c.tokens[i-1]
-			for l < len(p) && l < len(w) && p[l] == w[l] {
-				l++
-			}
-			if l == len(p) {
-				properPrefix = true
-			}
-		}
-		npre += len(w) - l
-	}
+	words := sc.words
+	kind := "plain"
 	dump := d.VerifDump()
+	if sc.stream != nil {
+		words, _ = d.Search()
+		kind = "foreign-dfs-ids"
+		var last uint64
+		for i, n := range dump {
+			if i > 0 && n.ID < last {
+				kind = "foreign-other-ids" // not the order in which the Builder numbers
+			}
+			last = n.ID
+		}
+	}
+	nontrivial, _ := sharing(words, len(dump))
 	maxBranch, maxID := 0, uint64(0)
 	for _, n := range dump {
 		if len(n.Labels) > maxBranch {
@@ -289,8 +431,44 @@ func Exec(line string) hx.Result {
 			maxID = n.ID
 		}
 	}
-	return hx.Result{Obs: obs, Nontrivial: len(dump) < npre || properPrefix, Viol: viol,
-		Buckets: []string{"words:" + cross(len(c.tokens)), "nodes:" + cross(len(dump)), "branch:" + cross(maxBranch), "maxid:" + cross(int(maxID))}}
+	return hx.Result{Obs: obs, Nontrivial: nontrivial, Viol: viol,
+		Buckets: []string{"kind:" + kind, "words:" + cross(len(words)), "nodes:" + cross(len(dump)), "branch:" + cross(maxBranch), "maxid:" + crossID(maxID)}}
+}
+
+func mustDecode(b []byte) *dawg.Dawg {
+	d := new(dawg.Dawg)
+	if err := d.GobDecode(append([]byte{}, b...)); err != nil {
+		return new(dawg.Dawg)
+	}
+	return d
+}
+
+// sharing: the non-triviality rule on a sorted word list and the node count of its automaton:
+// a node is shared (fewer nodes than distinct prefixes) or a word is a proper prefix of another.
+func sharing(words [][]byte, nodes int) (nontrivial bool, npre int) {
+	npre = 1
+	properPrefix := false
+	for i, w := range words {
+		l := 0
+		if i > 0 {
+			p := words[i-1]
+			for l < len(p) && l < len(w) && p[l] == w[l] {
+				l++
+			}
+			if l == len(p) {
+				properPrefix = true
+			}
+		}
+		npre += len(w) - l
+	}
+	return nodes < npre || properPrefix, npre
+}
+
+func crossID(x uint64) string {
+	if x >= 1<<32 {
+		return ">=2^32"
+	}
+	return cross(int(x))
 }
 
 // cross names the side of the varint boundaries a count lies on.
@@ -666,8 +844,143 @@ func Gen(g *hx.Gen) {
 		}
 		emit(sortDedup(ws))
 	}
+	genForeign(g)
+	genHistory(g)
 }
 
+func pickBlank(r *hx.Rng) byte {
+	if r.Chance(1, 4) {
+		return byte(r.Intn(256))
+	}
+	return '?'
+}
+
+// genForeign: streams in the shape GobEncode writes, with node numberings the Builder never
+// produces (foreign.go); plain round-trip cases whose source is the stream.
+func genForeign(g *hx.Gen) {
+	r := g.Rng
+	emit := func(ws [][]byte, stream []byte) {
+		blank := pickBlank(r)
+		g.Emit(tcase{blank: blank, pats: patterns(r, ws, blank), srcs: []source{{stream: stream}}}.line())
+	}
+	// corpus: two paths of different first-visit order meeting in one node, numbered so that the
+	// node reached second has the smaller id: root(0) -a-> 2 -x-> 3, root -b-> 1 -y-> 3
+	emit([][]byte{[]byte("ax"), []byte("by")}, streamWithPerm([][]byte{[]byte("ax"), []byte("by")}, []int{1, 2, 0}))
+	// exhaustive: every numbering 0..k of the minimal automaton of every subset of the short
+	// words over {a,b}, for automata with at most 5 (quick) / 6 (thorough) nodes
+	short := sortDedup(allWords([]byte("ab"), 2))
+	maxNodes := g.Pick(5, 6)
+	for mask := 1; mask < 1<<uint(len(short)); mask++ {
+		var ws [][]byte
+		for i, w := range short {
+			if mask>>uint(i)&1 == 1 {
+				ws = append(ws, w)
+			}
+		}
+		k := minimalSize(ws)
+		if k < 3 || k > maxNodes {
+			continue
+		}
+		for _, perm := range permutations(k - 1) {
+			emit(ws, streamWithPerm(ws, perm))
+		}
+	}
+	g.Exhaustive(fmt.Sprintf("every numbering (root least) of the minimal automaton of every subset of the 7 words of length <= 2 over {a,b} with 3..%d nodes, as a foreign stream", maxNodes))
+	// every id order x id value scheme x sharing mode on structured random sets
+	for i, n := 0, g.Pick(3, 60); i < n; i++ {
+		for ord := 0; ord < nOrders; ord++ {
+			for val := 0; val < nVals; val++ {
+				for mode := 0; mode < 3; mode++ {
+					ws := wordSet(r, randAlphabet(r))
+					emit(ws, foreignStream(r, ws, mode, ord, val))
+				}
+			}
+		}
+	}
+	// random combinations on the other shapes: wide nodes, chains across 127/255 nodes, many words
+	for i, n := 0, g.Pick(150, 4000); i < n; i++ {
+		var ws [][]byte
+		switch r.Intn(5) {
+		case 0:
+			ws = wide(r, []int{2, 3, 16, 126, 127, 128, 129, 255, 256}[r.Intn(9)], 40000)
+		case 1:
+			ws = chain(r, []int{5, 30, 125, 126, 127, 128, 254, 255, 256}[r.Intn(9)], r.Bool())
+		case 2:
+			ws = randomWords(r, []byte("abc"), r.Range(20, 300), 8)
+		case 3:
+			ws = manyWords([]byte("abcd"), 4, []int{126, 127, 128, 129, 255, 256}[r.Intn(6)])
+		default:
+			ws = wordSet(r, randAlphabet(r))
+		}
+		mode := 1
+		if r.Chance(1, 3) {
+			mode = []int{0, 2}[r.Intn(2)]
+			if len(ws) > 0 && minimalSize(ws) > 400 {
+				mode = 1
+			}
+		}
+		emit(ws, foreignStream(r, ws, mode, r.Intn(nOrders), r.Intn(nVals)))
+	}
+}
+
+// genHistory: several automata and a program over them (history.go).
+func genHistory(g *hx.Gen) {
+	r := g.Rng
+	emit := func(sets [][][]byte, foreign []bool, prog []string, each bool) {
+		var all [][]byte
+		srcs := make([]source, len(sets))
+		for i, ws := range sets {
+			all = append(all, ws...)
+			if foreign != nil && foreign[i] {
+				srcs[i] = source{stream: foreignStream(r, ws, []int{1, 1, 0, 2}[r.Intn(4)], r.Intn(nOrders), r.Intn(nVals))}
+			} else {
+				srcs[i] = source{words: ws}
+			}
+		}
+		all = sortDedup(append([][]byte{}, all...))
+		blank := pickBlank(r)
+		g.Emit(tcase{blank: blank, pats: patterns(r, all, blank), srcs: srcs, prog: prog, each: each}.line())
+	}
+	// exhaustive: every ordered pair of subsets of {"", a, b, ab}: both encodings held; and
+	// encode A, decode B's encoding into A, encode A again
+	base := [][]byte{{}, []byte("a"), []byte("ab"), []byte("b")}
+	sub := func(mask int) [][]byte {
+		ws := [][]byte{}
+		for i, w := range base {
+			if mask>>uint(i)&1 == 1 {
+				ws = append(ws, w)
+			}
+		}
+		return ws
+	}
+	for ma := 0; ma < 16; ma++ {
+		for mb := 0; mb < 16; mb++ {
+			emit([][][]byte{sub(ma), sub(mb)}, nil, []string{"e0", "e1", "c", "d0:1", "e0", "d2:0", "e2"}, false)
+		}
+	}
+	g.Exhaustive("every ordered pair (A,B) of subsets of {\"\",a,ab,b}: encodings of A and B held together; encode A, decode B into the Dawg of A, encode it again; decode A's held encoding into a zero Dawg")
+	// every buffer-size boundary: encodings of t, t-1, t+1 bytes (and the reverse order) held together
+	for _, t := range sizeBoundaries {
+		for _, dl := range [][]int{{0, -1, 1}, {1, 0, -1}, {-1, 0, 0}} {
+			var sets [][][]byte
+			for _, d := range dl {
+				sets = append(sets, chainOfSize(r, t+d))
+			}
+			emit(sets, nil, []string{"e0", "e1", "e2", "c", "d1:0", "e1"}, r.Bool())
+		}
+	}
+	for i, n := 0, g.Pick(900, 30000); i < n; i++ {
+		sets := sourceFamily(r)
+		var foreign []bool
+		if r.Chance(1, 4) {
+			foreign = make([]bool, len(sets))
+			for j := range foreign {
+				foreign[j] = r.Bool() && len(sets[j]) <= 120
+			}
+		}
+		emit(sets, foreign, historyProgram(r, len(sets)), r.Bool())
+	}
+}
 
 func short(s string, n int) string {
 	if len(s) > n {
